@@ -96,6 +96,9 @@ func TreeFor(class string, c int64) []xfer.FileSpec {
 		return []xfer.FileSpec{d("logs"), f("logs.txt", 3), d("img"), f("img2/x", c), d("a/cache"), f("a/cache-old/y", 1), d("d1"), d("d10"), f("z", 2), d("z-dir"), d("z.d")}
 	case "dotdotNames":
 		return []xfer.FileSpec{f("notes..txt", 4), f("a..b/c...d", c+2), f("...", 1), f("x/..y", 3), f("rel-1../notes.txt", 2), f("..../x", 1), f("v2../sub../z..", c)}
+	case "deviceNames":
+		// names that are reserved devices on another platform are ordinary names here
+		return []xfer.FileSpec{f("aux.c", 7), f("nul", 1), f("docs/con.txt", c), f("aux/readme", 3), d("prn"), f("logs/com1.log", c+1), f("LPT1", 2), f("prn.tar.gz", 9), f("a\\b.txt", 4)}
 	case "deepNest":
 		return []xfer.FileSpec{f("a/b/c/d/e/f/g/deep.bin", 2*c), d("a/b/c/void"), f("a/k1", c), f("a/k8", 8*c), f("a/b/zero", 0)}
 	}
@@ -225,6 +228,7 @@ type faultCase struct {
 	Source  string          `json:"source,omitempty"` // shrink:<rel> | remove:<rel> | grow:<rel>
 	Sink    string          `json:"sink,omitempty"`   // dir-at:<rel> | readonly
 	Resume  bool            `json:"resume,omitempty"`
+	Hash    string          `json:"hash,omitempty"` // the sender's HashAlg option ("" = default)
 }
 
 var faultTree = []xfer.FileSpec{{Rel: "a.bin", Size: 20}, {Rel: "sub/b.bin", Size: 9}, {Rel: "sub/empty", Size: 0}}
@@ -251,6 +255,7 @@ func XferFaults(args []string) {
 	budget := fs.Duration("budget", 10*time.Minute, "wall-clock budget")
 	traceOut := fs.String("trace-out", "", "prefix of the hook trace file for SessionTrace.tla (shard number appended)")
 	treeName := fs.String("tree", "default", "default | empty (only empty files and empty directories)")
+	onlyName := fs.String("only", "", "run only the cases of this kind (close | flip | cancel | source | sink)")
 	fs.Parse(args)
 	installHooks()
 	if *treeName == "empty" {
@@ -331,6 +336,21 @@ func XferFaults(args []string) {
 		}
 		cases = append(cases, faultCase{Name: "sink", Streams: ns, Mode: "mock", Sink: "readonly"})
 		_ = maxBytes
+	}
+	// the payload flips again under every hash algorithm the sender's options accept (the frame checksum must not depend on it)
+	for _, h := range []string{"none", "xxhash64", "crc32c"} {
+		for frame := 0; frame < 5; frame++ {
+			cases = append(cases, faultCase{Name: "flip", Streams: 1, Mode: "mock", Hash: h, Flip: &vnet.FlipSpec{Stream: 1, Dir: vnet.A, Part: "payload", Frame: frame, Offset: frame % faultChunk, Bit: uint(frame % 8)}})
+		}
+	}
+	if *onlyName != "" {
+		var sel []faultCase
+		for _, c := range cases {
+			if c.Name == *onlyName {
+				sel = append(sel, c)
+			}
+		}
+		cases = sel
 	}
 	// the same closes with QUIC visibility + seeded arrival order, and with resume, sampled
 	n0 := len(cases)
@@ -421,7 +441,7 @@ func runFaultCase(base string, c faultCase, seed int64, wd time.Duration, tap fu
 	}
 	outDir := filepath.Join(dir, "out")
 	cfg := xfer.Config{Transport: c.Mode, Conns: 1, Streams: c.Streams, ChunkSize: faultChunk, Seed: seed, Watchdog: wd,
-		Fault: c.Fault, Flip: c.Flip, CancelSide: c.Cancel, CancelAfter: c.After, Resume: c.Resume, Tap: tap}
+		Fault: c.Fault, Flip: c.Flip, CancelSide: c.Cancel, CancelAfter: c.After, Resume: c.Resume, SenderHash: c.Hash, Tap: tap}
 	if c.Source != "" {
 		parts := strings.SplitN(c.Source, ":", 2)
 		target := filepath.Join(src, filepath.FromSlash(parts[1]))
